@@ -308,38 +308,32 @@ def denote(assignment, inputs: dict, sizes: dict) -> dict:
     return out
 
 
-def support(assignment, inputs: dict, sizes: dict) -> set:
+def support(assignment, stored: dict, sizes: dict) -> set:
     """Structural support of C03: tensors as stored coordinate sets, * -> intersection, + -> union,
-    summation -> projection, literals -> everywhere. Returns the set of target coordinates."""
-    from tensora.expression import ast as s
-
+    summation -> projection (per additive term, over the term's own non-target indexes), literals ->
+    everywhere. `stored`: name -> collection of stored coordinates. Returns the set of target coords."""
     target_idx = list(assignment.target.indexes)
-    all_idx = list(sizes.keys())
-
-    def sup(expr, env):
-        if isinstance(expr, (s.Integer, s.Float)):
-            return True
-        if isinstance(expr, s.Tensor):
-            return tuple(env[ix] for ix in expr.indexes) in inputs[expr.name]
-        if isinstance(expr, (s.Add, s.Subtract)):
-            return sup(expr.left, env) or sup(expr.right, env)
-        if isinstance(expr, s.Multiply):
-            return sup(expr.left, env) and sup(expr.right, env)
-        raise TypeError(type(expr))
-
-    other = [ix for ix in all_idx if ix not in target_idx]
+    terms = additive_terms(assignment.expression)
     out = set()
     for coord in itertools.product(*[range(sizes[i]) for i in target_idx]):
         env = dict(zip(target_idx, coord))
-        for vals in itertools.product(*[range(sizes[ix]) for ix in other]):
-            env2 = dict(env)
-            env2.update(zip(other, vals))
-            if sup(assignment.expression, env2):
+        for _sign, factors in terms:
+            own = []
+            for f in factors:
+                if f[0] == "t":
+                    for ix in f[2]:
+                        if ix not in env and ix not in own:
+                            own.append(ix)
+            hit = False
+            for vals in itertools.product(*[range(sizes[ix]) for ix in own]):
+                e2 = dict(env)
+                e2.update(zip(own, vals))
+                if all(f[0] == "c" or tuple(e2[ix] for ix in f[2]) in stored[f[1]] for f in factors):
+                    hit = True
+                    break
+            if hit:
                 out.add(coord)
                 break
-        else:
-            if not other and sup(assignment.expression, env):
-                out.add(coord)
     return out
 
 
@@ -389,7 +383,7 @@ def in_fork(fn, timeout=20):
     return pickle.loads(data)
 
 
-def run_real(assignment_text: str, fmts: dict[str, str], inputs_list, backend="llvm"):
+def run_real(assignment_text: str, fmts: dict[str, str], inputs_list, backend="llvm", feedback=False):
     """Compile with tensor_method and run on each inputs dict (name -> (coords dict, dims)).
     Returns list of Raw (pickled fields) per input set. To be called inside in_fork."""
     from tensora import tensor_method
@@ -407,7 +401,51 @@ def run_real(assignment_text: str, fmts: dict[str, str], inputs_list, backend="l
         try:
             res = tm(**args)
             raw = Raw.of_tensor(res)
-            outs.append(("ok", raw.dims, raw.modes, raw.ordering, raw.levels, raw.vals))
+            fb = feedback_ops(res) if feedback else []
+            outs.append(("ok", raw.dims, raw.modes, raw.ordering, raw.levels, raw.vals, fb))
         except Exception as e:  # noqa: BLE001
             outs.append(("exc", type(e).__name__, str(e)[:300]))
     return outs
+
+
+def feedback_ops(res):
+    """C02's consequence clause on a real result: usable as input, convertible, comparable, picklable.
+    Returns a list of failure descriptions."""
+    import pickle
+    import random
+
+    from tensora import evaluate
+    from tensora.format import Format, Mode
+
+    bad = []
+    ref = Raw.of_tensor(res).decode(explicit_zeros=False)
+    order = res.order
+    try:
+        r2 = pickle.loads(pickle.dumps(res))
+        if Raw.of_tensor(r2).decode(explicit_zeros=False) != ref or r2.format != res.format:
+            bad.append("pickle round trip changed the tensor")
+    except Exception as e:  # noqa: BLE001
+        bad.append(f"pickle raised {type(e).__name__}: {e}")
+    try:
+        if not (res == res):
+            bad.append("result does not compare equal to itself")
+    except Exception as e:  # noqa: BLE001
+        bad.append(f"== raised {type(e).__name__}: {e}")
+    rng = random.Random(len(ref) * 7 + order)
+    modes = tuple(rng.choice([Mode.dense, Mode.compressed]) for _ in range(order))
+    ordering = list(range(order))
+    rng.shuffle(ordering)
+    try:
+        r3 = res.to_format(Format(modes, tuple(ordering)))
+        if Raw.of_tensor(r3).decode(explicit_zeros=False) != ref:
+            bad.append("to_format changed the content")
+    except Exception as e:  # noqa: BLE001
+        bad.append(f"to_format raised {type(e).__name__}: {e}")
+    try:
+        idx = ",".join(f"i{k}" for k in range(order))
+        r4 = evaluate(f"copy({idx}) = src({idx})", "d" * order, src=res)
+        if Raw.of_tensor(r4).decode(explicit_zeros=False) != ref:
+            bad.append("copy kernel reading the result as input produced different content")
+    except Exception as e:  # noqa: BLE001
+        bad.append(f"using the result as kernel input raised {type(e).__name__}: {e}")
+    return bad
